@@ -120,9 +120,11 @@ type GateCache struct {
 	mu      sync.Mutex
 	tickets []*ticket
 	arrived chan struct{}
+	vouch   func(key, chain []byte) bool
 }
 
 type ticket struct {
+	sound   bool // at arrival the storage held exactly this chain under this key
 	chain   []byte
 	key     string
 	release chan struct{}
@@ -138,7 +140,8 @@ func (g *GateCache) Get(ctx context.Context, key []byte) ([]byte, error) { retur
 
 // Set waits at the gate.
 func (g *GateCache) Set(ctx context.Context, key []byte, chain []byte) error {
-	t := &ticket{key: string(key), chain: append([]byte{}, chain...), release: make(chan struct{}), done: make(chan struct{})}
+	sum := sha256.Sum256(chain)
+	t := &ticket{key: string(key), chain: append([]byte{}, chain...), sound: bytes.Equal(sum[:], key) && (g.vouch == nil || g.vouch(key, chain)), release: make(chan struct{}), done: make(chan struct{})}
 	g.mu.Lock()
 	g.tickets = append(g.tickets, t)
 	g.mu.Unlock()
@@ -199,15 +202,16 @@ func (g *GateCache) Settle(want int) int {
 	return len(g.tickets)
 }
 
-// Waiting returns the (key, chain) pairs waiting at the gate.
-func (g *GateCache) Waiting() [][2][]byte {
+// Unsound tells whether a write waiting at the gate carried, when it arrived, a chain the storage did not hold.
+func (g *GateCache) Unsound() bool {
 	g.mu.Lock()
 	defer g.mu.Unlock()
-	var out [][2][]byte
 	for _, t := range g.tickets {
-		out = append(out, [2][]byte{[]byte(t.key), t.chain})
+		if !t.sound {
+			return true
+		}
 	}
-	return out
+	return false
 }
 
 // ReleaseAll lets every pending Set run (end of a behaviour).
@@ -230,6 +234,7 @@ type CSStep struct {
 		Fault string `json:"fault"`
 		K     int    `json:"k"`
 		Index int    `json:"index"`
+		To    int    `json:"to"`
 		Via   string `json:"via"`
 		Chain string `json:"chain"`
 		Class string `json:"class"`
@@ -238,6 +243,8 @@ type CSStep struct {
 		Status int    `json:"status"`
 		Add    bool   `json:"add"`
 		Find   bool   `json:"find"`
+		Finds  int    `json:"finds"`
+		Sets   int    `json:"sets"`
 		Cert   string `json:"cert"`
 	} `json:"reply"`
 }
@@ -277,6 +284,7 @@ func newTwin(dir string, capacity int, seedSalt int64, realTTL time.Duration) (*
 		real = lru.NewIssuanceChainCache(lru.CacheOption{Size: capacity, TTL: realTTL})
 	}
 	tw := &twin{store: newMemStore(), gate: newGateCache(real), keys: map[string][]byte{}}
+	tw.gate.vouch = tw.store.holds
 	subs := map[string]*Sub{}
 	for _, id := range ids {
 		s := &Sub{ID: id, Pre: pre[id]}
@@ -327,6 +335,7 @@ func newTwin(dir string, capacity int, seedSalt int64, realTTL time.Duration) (*
 			fresh = lru.NewIssuanceChainCache(lru.CacheOption{Size: capacity, TTL: realTTL})
 		}
 		tw.gate = newGateCache(fresh)
+		tw.gate.vouch = tw.store.holds
 		x, err := mk(ctfeenv.Opts{Storage: tw.store, Cache: tw.gate, Backend: tw.x.Env.Backend})
 		if err != nil {
 			return err
@@ -361,6 +370,28 @@ func readEntry(w *World, via string, index, size int) (int, []byte, []byte, erro
 	return code, r.Entries[0].LeafInput, r.Entries[0].ExtraData, nil
 }
 
+func readRange(w *World, from, to int) (int, []ct.LeafEntry, error) {
+	code, body, _, err := w.Env.Do("GET", ct.GetEntriesPath, q("start", from, "end", to), nil)
+	if err != nil || code != 200 {
+		return code, nil, err
+	}
+	var r ct.GetEntriesResponse
+	if err := json.Unmarshal(body, &r); err != nil {
+		return code, nil, err
+	}
+	return code, r.Entries, nil
+}
+
+func lastRangeCause(s CSStep) string {
+	if s.Args.Fault == "findError" {
+		return "findError"
+	}
+	if s.Reply.Status != 200 {
+		return "damaged-or-missing-row"
+	}
+	return "none"
+}
+
 func runChainStore(t *testing.T, beh CSBehaviour, idx int, rep *vh.Report, dir string) {
 	tw, err := newTwin(dir, beh.Cap, int64(idx), 0)
 	if err != nil {
@@ -381,14 +412,18 @@ func runChainStore(t *testing.T, beh CSBehaviour, idx int, rep *vh.Report, dir s
 			// about a chain that the store does not hold under that key (the cache stands for "stored", see add()).
 			// A sound extra write only means the implementation caches more eagerly than the model: the hit / miss
 			// predictions of this behaviour no longer apply, nothing more.
-			for _, kc := range tw.gate.Waiting() {
-				sum := sha256.Sum256(kc[1])
-				if !bytes.Equal(sum[:], kc[0]) || !tw.store.holds(kc[0], kc[1]) {
+			{
+				if tw.gate.Unsound() {
 					viol(n, "cache-write:unsound:"+what, fmt.Sprintf("a detached cache write carries a chain the storage does not hold under that hash (%d writes on their way, the specification knows of %d): a later submission of that chain is acknowledged from the cache alone and its entry cannot be served by a front end with a cold cache", got, outstanding))
 					return
 				}
 			}
 			unmodelled = true
+			rep.Add("behaviours_cut_at_unmodelled_cache_write", 1)
+			if os.Getenv("VERIF_DEBUG") != "" {
+				b, _ := json.Marshal(beh.Steps[:n+1])
+				fmt.Printf("UNMODELLED %s got=%d want=%d cap=%d %s\n", what, got, outstanding, beh.Cap, b)
+			}
 		}
 	}
 	for n, s := range beh.Steps {
@@ -507,6 +542,70 @@ func runChainStore(t *testing.T, beh CSBehaviour, idx int, rep *vh.Report, dir s
 			if (f1-f0 == 1) != s.Reply.Find {
 				viol(n, fmt.Sprintf("read:find-calls:%s:want=%v", fpc, s.Reply.Find), fmt.Sprintf("index %d (%s): storage.FindByKey called %d times, specification says %v (cache capacity %d)", s.Args.Index, s.Args.Via, f1-f0, s.Reply.Find, beh.Cap))
 			}
+		case "ReadRange":
+			size := tw.d.Env.Backend.Size()
+			codeD, entsD, errD := readRange(tw.d, s.Args.Index, s.Args.To)
+			if errD != nil || codeD != 200 || len(entsD) != s.Args.To-s.Args.Index+1 {
+				t.Fatalf("direct instance range read failed: %d %v (%d entries, tree %d)", codeD, errD, len(entsD), size)
+			}
+			if s.Args.Fault == "findError" {
+				tw.store.mu.Lock()
+				tw.store.FailFind = true
+				tw.store.mu.Unlock()
+			}
+			_, f0 := tw.store.counts()
+			codeX, entsX, errX := readRange(tw.x, s.Args.Index, s.Args.To)
+			_, f1 := tw.store.counts()
+			tw.store.mu.Lock()
+			tw.store.FailFind = false
+			tw.store.mu.Unlock()
+			fpr := fmt.Sprintf("range:%s", lastRangeCause(s))
+			if errX != nil && codeX == 0 {
+				viol(n, "readrange:panic", errX.Error())
+				continue
+			}
+			// whatever the status: chain data that is served is the direct mode's, entry by entry
+			if codeX == 200 {
+				if len(entsX) == 0 || len(entsX) > len(entsD) {
+					viol(n, "readrange:count:"+fpr, fmt.Sprintf("get-entries(%d,%d) with external chain storage served %d entries, the direct mode %d", s.Args.Index, s.Args.To, len(entsX), len(entsD)))
+					continue
+				}
+				bad := false
+				for i := range entsX {
+					if !bytes.Equal(entsX[i].LeafInput, entsD[i].LeafInput) || !bytes.Equal(entsX[i].ExtraData, entsD[i].ExtraData) {
+						viol(n, "readrange:differs:"+fpr, fmt.Sprintf("get-entries(%d,%d): entry %d served with external chain storage carries %d bytes of extra_data, the direct mode %d (specification: status %d)", s.Args.Index, s.Args.To, s.Args.Index+i, len(entsX[i].ExtraData), len(entsD[i].ExtraData), s.Reply.Status))
+						bad = true
+						break
+					}
+				}
+				if bad {
+					continue
+				}
+			}
+			if s.Reply.Status == 200 && (codeX != 200 || len(entsX) != len(entsD)) {
+				viol(n, fmt.Sprintf("readrange:status:got%d", codeX), fmt.Sprintf("get-entries(%d,%d) with external chain storage answered %d with %d entries, the direct mode serves %d", s.Args.Index, s.Args.To, codeX, len(entsX), len(entsD)))
+				continue
+			}
+			if s.Reply.Status != 200 && codeX != 200 && codeX < 500 {
+				viol(n, fmt.Sprintf("readrange:fault-status:got%d", codeX), fmt.Sprintf("storage fault answered %d, expected 5xx", codeX))
+				continue
+			}
+			if s.Reply.Status != 200 && codeX == 200 {
+				// a correct proper prefix would be a legitimate short read; the model answers with an error, so the rest of
+				// the behaviour (cache state) no longer applies
+				unmodelled = true
+				continue
+			}
+			if f1-f0 != s.Reply.Finds {
+				viol(n, fmt.Sprintf("readrange:find-calls:want=%d", s.Reply.Finds), fmt.Sprintf("get-entries(%d,%d): storage.FindByKey called %d times, specification says %d (cache capacity %d)", s.Args.Index, s.Args.To, f1-f0, s.Reply.Finds, beh.Cap))
+				continue
+			}
+			// every storage lookup that succeeded is followed by a detached cache write (also with the noop cache)
+			outstanding += s.Reply.Finds
+			if s.Reply.Status != 200 {
+				outstanding--
+			}
+			settle(n, "after-readrange")
 		case "CacheSetFires":
 			key, ok := tw.keys[s.Args.Chain]
 			if !ok {
